@@ -10,14 +10,22 @@
      o<c><text>       oracle entry of component c for the string <text>; c = 0 SpecifierSet, 1 Requirement, 2 licence expression,
                       3 EmailMessage content type, 4 pathlib tests;  without a following v-token the component rejects the string
      v<text>          the component accepts, <text> = str(result) (component 3: get_content_type(); component 4: unused)
+     x<class>         the component raises something other than its documented exception (class name): ORaise
      c<text> w<text>  component 3: params["charset"], params["variant"] when present
-     R<field>         read that attribute (after construction) *)
+     R<field>         read that attribute (after construction)
+     H<name> V<value> W<value> Y<text> Z<text>    (m.from_email_doc only) what the email package delivers for the document: see RunEmail.v
+
+     (m.heap only; <key> and the items of one operation are separated by U+001F, operations and reads are executed in argument order)
+     R<field>         read        a<key>[^_<item>]*  caller: d[key] = [items]          d<key>  caller: del d[key]
+     m<key>[^_<item>]*  caller: d[key][:] = [items] when d[key] is a list     h<key>[^_<item>]*  holder: getattr(m, key)[:] = [items] when it was read and is a list
+
+   The model run is MetaModel3.v (three-valued oracles, AttributeError for non-fields, sorted iteration order). *)
 From Coq Require Import List NArith Bool String.
 Import ListNotations.
-Require Import Show MetaTable MetaBase MetaShow MetaModel.
+Require Import Show MetaTable MetaBase MetaShow MetaModel MetaModel3 MetaHeap EmailModel MetaEmailModel RunEmail.
 Open Scope N_scope.
 
-Record oentry := { oe_comp : N; oe_key : list N; oe_v : option (list N); oe_c : option (list N); oe_w : option (list N) }.
+Record oentry := { oe_comp : N; oe_key : list N; oe_v : option (list N); oe_c : option (list N); oe_w : option (list N); oe_x : option (list N) }.
 Record pstate := { p_data : list (list N * rawv); p_label : list N; p_unparsed : list (list N); p_or : list oentry; p_reads : list (list N) }.
 Definition p0 := {| p_data := []; p_label := []; p_unparsed := []; p_or := []; p_reads := [] |}.
 
@@ -47,12 +55,13 @@ Definition tok_step (st : pstate) (tok : list N) : pstate :=
       else if tag =? 111 then
         match body with
         | c :: key => {| p_data := p_data st; p_label := p_label st; p_unparsed := p_unparsed st;
-                         p_or := {| oe_comp := c - 48; oe_key := key; oe_v := None; oe_c := None; oe_w := None |} :: p_or st; p_reads := p_reads st |}
+                         p_or := {| oe_comp := c - 48; oe_key := key; oe_v := None; oe_c := None; oe_w := None; oe_x := None |} :: p_or st; p_reads := p_reads st |}
         | [] => st
         end
-      else if tag =? 118 then set_or st (fun e => {| oe_comp := oe_comp e; oe_key := oe_key e; oe_v := Some body; oe_c := oe_c e; oe_w := oe_w e |})
-      else if tag =? 99 then set_or st (fun e => {| oe_comp := oe_comp e; oe_key := oe_key e; oe_v := oe_v e; oe_c := Some body; oe_w := oe_w e |})
-      else if tag =? 119 then set_or st (fun e => {| oe_comp := oe_comp e; oe_key := oe_key e; oe_v := oe_v e; oe_c := oe_c e; oe_w := Some body |})
+      else if tag =? 118 then set_or st (fun e => {| oe_comp := oe_comp e; oe_key := oe_key e; oe_v := Some body; oe_c := oe_c e; oe_w := oe_w e; oe_x := oe_x e |})
+      else if tag =? 99 then set_or st (fun e => {| oe_comp := oe_comp e; oe_key := oe_key e; oe_v := oe_v e; oe_c := Some body; oe_w := oe_w e; oe_x := oe_x e |})
+      else if tag =? 119 then set_or st (fun e => {| oe_comp := oe_comp e; oe_key := oe_key e; oe_v := oe_v e; oe_c := oe_c e; oe_w := Some body; oe_x := oe_x e |})
+      else if tag =? 120 then set_or st (fun e => {| oe_comp := oe_comp e; oe_key := oe_key e; oe_v := oe_v e; oe_c := oe_c e; oe_w := oe_w e; oe_x := Some body |})
       else if tag =? 82 then {| p_data := p_data st; p_label := p_label st; p_unparsed := p_unparsed st; p_or := p_or st; p_reads := p_reads st ++ [body] |}
       else st
   end.
@@ -62,12 +71,20 @@ Definition find_or (tbl : list oentry) (c : N) (s : list N) : option oentry :=
   find (fun e => (oe_comp e =? c) && seqb (oe_key e) s) tbl.
 Definition or_text (tbl : list oentry) (c : N) (s : list N) : option (list N) :=
   match find_or tbl c s with Some e => oe_v e | None => None end.
-Definition oracles_of (tbl : list oentry) : oracles :=
-  {| o_specset := or_text tbl 0; o_req := or_text tbl 1; o_lic := or_text tbl 2;
-     o_ctype := fun s => match find_or tbl 3 s with
-                         | Some e => match oe_v e with Some ct => Some (ct, (oe_c e, oe_w e)) | None => None end
-                         | None => None end;
-     o_path := fun s => negb (is_some (or_text tbl 4 s)) |}.
+Definition or_res (tbl : list oentry) (c : N) (s : list N) : ores (list N) :=
+  match find_or tbl c s with
+  | Some e => match oe_x e with Some x => ORaise x | None => match oe_v e with Some t => OAcc t | None => ORej end end
+  | None => ORej
+  end.
+Definition oracles_of (tbl : list oentry) : oracles3 :=
+  {| o3_specset := or_res tbl 0; o3_req := or_res tbl 1; o3_lic := or_res tbl 2;
+     o3_ctype := fun s => match find_or tbl 3 s with
+                          | Some e => match oe_x e with
+                                      | Some x => ORaise x
+                                      | None => match oe_v e with Some ct => OAcc (ct, (oe_c e, oe_w e)) | None => ORej end
+                                      end
+                          | None => ORej end;
+     o3_path := fun s => negb (is_some (or_text tbl 4 s)) |}.
 
 (* ---- rendering (MetaShow.v): a string is its code points, "104.105"; list [a,b]; dict {k:v,...}; None N *)
 Definition show_enr (e : enr) : list N :=
@@ -75,9 +92,9 @@ Definition show_enr (e : enr) : list N :=
 Definition show_res (r : res) : list N :=
   match r with Ok e => show_enr e | Invalid f => asc "E:" ++ f | Crash c => asc "!EXC:" ++ c end.
 
-Definition show_fr (O : oracles) (r : frres) (rs : list (list N)) : list N :=
+Definition show_fr (O : oracles3) (r : frres) (rs : list (list N)) : list N :=
   match r with
-  | FOk s => join bar (asc "OK" :: map show_res (reads O s rs))
+  | FOk s => join bar (asc "OK" :: map show_res (reads3 O s rs))
   | FGroup fs => asc "G:" ++ join [44] (sort_s fs)
   | FCrash c => asc "!EXC:" ++ c
   end.
@@ -85,13 +102,48 @@ Definition show_fr (O : oracles) (r : frres) (rs : list (list N)) : list N :=
 Definition obs_from_raw (args : list (list N)) : list N :=
   let st := parse_tokens (tl args) in
   let O := oracles_of (p_or st) in
-  show_fr O (from_raw O (parse_bool (nth_str 0 args)) (rev (p_data st))) (p_reads st).
+  show_fr O (from_raw3 O (parse_bool (nth_str 0 args)) (rev (p_data st))) (p_reads st).
 Definition obs_from_email (args : list (list N)) : list N :=
   let st := parse_tokens (tl args) in
   let O := oracles_of (p_or st) in
-  show_fr O (from_email O (parse_bool (nth_str 0 args)) (rev (p_data st)) (p_unparsed st)) (p_reads st).
+  show_fr O (from_email3 O (parse_bool (nth_str 0 args)) (rev (p_data st)) (p_unparsed st)) (p_reads st).
+
+(* Metadata.from_email on the document: the C18 model of parse_email composed with the validation *)
+Definition obs_from_email_doc (args : list (list N)) : list N :=
+  let st := parse_tokens (tl args) in
+  let ep := ep_parse (tl args) in
+  let O := oracles_of (p_or st) in
+  show_fr O (from_email_doc O (parse_bool (nth_str 0 args)) (ep_items ep) (ep_payload ep)) (p_reads st).
+
+(* m.heap: the heap model (MetaHeap.v): from_raw(validate=False) on the caller's dict object, then reads interleaved with in-place changes;
+   output = the reads, then "#" and the caller's dict as it is at the end *)
+Definition heap_op (tok : list N) : list hop :=
+  match tok with
+  | [] => []
+  | tag :: body =>
+      let parts := split_on 31 body in
+      let key := hd [] parts in
+      let items := tl parts in
+      if tag =? 82 then [HRead body]
+      else if tag =? 97 then [HSet key items]
+      else if tag =? 100 then [HDel body]
+      else if tag =? 109 then [HMutCaller key items]
+      else if tag =? 104 then [HMutResult key items]
+      else []
+  end.
+Definition show_rawv (v : rawv) : list N :=
+  match v with VStr s => show_s s | VList l => show_list l | VDict d => show_dict d end.
+Definition obs_heap (args : list (list N)) : list N :=
+  let st := parse_tokens (tl args) in
+  let O := oracles_of (p_or st) in
+  let w := world_of (rev (p_data st)) in
+  let '(w2, _, rs) := hrun O caller_loc (from_raw_h w caller_loc) (flat_map heap_op (tl args)) in
+  join bar (asc "OK" :: map show_res rs) ++ [35] ++
+  join [59] (map (fun kv => show_s (fst kv) ++ [61] ++ show_rawv (snd kv)) (deref w2 (odict (lookup caller_loc (w_dicts w2))))).
 
 Definition run_meta (cmd : list N) (args : list (list N)) : option (list N) :=
   if seqb cmd (asc "m.from_raw") then Some (obs_from_raw args)
   else if seqb cmd (asc "m.from_email") then Some (obs_from_email args)
+  else if seqb cmd (asc "m.from_email_doc") then Some (obs_from_email_doc args)
+  else if seqb cmd (asc "m.heap") then Some (obs_heap args)
   else None.
